@@ -109,6 +109,9 @@ class Link(object):
         self.tap = tap
         self.seq = 0
         self.activity = 0     # bumped whenever bytes move
+        # a socket whose peer has close()d refuses further writes
+        self.sock_closed = {"client": False, "server": False}
+        self.peer_gone_errno = errno.EPIPE
 
     def push(self, direction, data):
         d = self.dirs[direction]
@@ -282,6 +285,10 @@ class MemSock(object):
             return k
         if self.link.dirs[self.out].closed:
             raise socket.error(errno.EPIPE, "peer gone")
+        if self.link.sock_closed["server" if self.side == "client"
+                                 else "client"]:
+            raise socket.error(self.link.peer_gone_errno,
+                               "peer has closed its socket")
         take = len(data)
         if self.send_script is not None and take:
             take = self.send_script(self, len(data))
@@ -315,6 +322,7 @@ class MemSock(object):
     def close(self):
         if not self.closed:
             self.closed = True
+            self.link.sock_closed[self.side] = True
             self.link.close_dir(self.out)
 
     def shutdown(self, how):
